@@ -804,7 +804,8 @@ struct Target {
 	enum Mode { TEXT, BYTES_TEXT, BINARY } mode;
 	std::vector<std::pair<size_t, size_t> > ranges;     // BINARY: offsets that get the byte catalogue (empty = all)
 	std::string delims;
-	Target() : expect_accept(true), mode(TEXT), delims("\n|^") {}
+	size_t stride;                                      // use every stride-th mutation only (targets whose every call is very expensive)
+	Target() : expect_accept(true), mode(TEXT), delims("\n|^"), stride(1) {}
 };
 
 struct Runner {
@@ -897,7 +898,9 @@ struct Runner {
 				// the child died while running P[done]: decide and attribute by running that case alone
 				const Pending &c = P[done];
 				Res r = F.run([&]() { return T.run(c.data); });
-				if (!r.violation())
+				if (!r.violation() && Forker::is_timeout(st))
+					r.slow = true;      // the per-case watchdog fired inside the batch, alone the case terminates: slow, not a violation
+				else if (!r.violation())
 				{
 					// not reproducible in isolation: depends on the cases before it in the same child
 					std::string err;
@@ -940,10 +943,12 @@ struct Runner {
 			R.counters["seeds"] += (R.args.shard == 0) ? 1 : 0;
 		}
 		std::vector<Pending> P;
-		size_t bytes = 0;
+		size_t bytes = 0, nth = 0;
 		bool stop = false;
+		double t_begin = drv::now();
 		auto one = [&](const Mutation &m) {
 			if (stop) return;
+			if (T.stride > 1 && (nth++ % T.stride) != 0) return;
 			std::string cid = T.name + "/" + T.seedname + "/" + m.id;
 			if (!R.mine() || !R.selected(cid))
 				return;
@@ -969,6 +974,7 @@ struct Runner {
 			if (R.out_of_time()) P.clear();
 			else flush(T, P);
 		}
+		R.counters["ms:" + T.name] += (uint64_t)((drv::now() - t_begin) * 1000);
 	}
 };
 
